@@ -420,6 +420,8 @@ class Interp:
         return None
 
     def default_call(self, call, name, recv, args, kwargs, st):
+        if is_t(recv) and recv[1] == 'call' and recv[2] == 'super' and self.fi_stack and self.fi_stack[-1].self_name:
+            recv = st.env.get(self.fi_stack[-1].self_name, recv)       # super().m(..) runs on the same object
         # inline repo callees when allowed
         if self.fi_stack and st.depth < self.inline_depth:
             tg = self.repo.resolve_call(self.fi_stack[-1], call, virtual=False)
